@@ -258,3 +258,248 @@ Proof.
     + intro Hx. apply (HJ false Hx).
     + destruct (tc_directory c); [|discriminate]. intro Hx. apply (HJ true Hx).
 Qed.
+
+(* ---------- the specification run leaves the source tree at the destination ---------- *)
+Section Tree.
+Variable c : tr_cfg.
+Variable d : path.
+Variable f0 : fs.
+
+(* where an entry lands below its top-level name, what is there, and its name as sent *)
+Definition tr_tail (e : tr_entry) : list name := tr_p_tail (tr_payload c e).
+Definition tr_node (e : tr_entry) : node := if te_isdir e then Dir else File (te_data e).
+Definition tr_key (e : tr_entry) : name := tr_p_head (tr_payload c e).
+
+Lemma tail_json e : tr_json c = true -> tr_tail e = tl (te_rel e).
+Proof. unfold tr_tail, tr_payload. intros ->. reflexivity. Qed.
+Lemma tail_plain e : tr_json c = false -> tr_tail e = [].
+Proof. unfold tr_tail, tr_payload. intros ->. reflexivity. Qed.
+Lemma pid_json e : tr_json c = true -> tr_p_id (tr_payload c e) = Some (te_id e).
+Proof. unfold tr_payload. intros ->. reflexivity. Qed.
+Lemma pid_plain e : tr_json c = false -> tr_p_id (tr_payload c e) = None.
+Proof. unfold tr_payload. intros ->. reflexivity. Qed.
+
+(* the source list as checkPathsReadable / checkDuplicateNames leave it *)
+Definition tr_wf (es : list tr_entry) : Prop :=
+  (tc_overwrite c = false -> tr_json c = true ->
+     NoDup (map (fun e => (te_id e, tl (te_rel e))) es) /\
+     (forall pre e post, es = pre ++ e :: post -> tl (te_rel e) <> [] -> exists e', In e' pre /\ te_id e' = te_id e)) /\
+  (tc_overwrite c = true -> NoDup (map (fun e => tr_key e :: tr_tail e) es)).
+
+Definition Inv (st : state) (done : list (tr_entry * name)) : Prop :=
+  chain (st_fs st) d /\ map_good (st_map st) /\
+  (forall q, lookup f0 q <> None -> lookup (st_fs st) q <> None) /\
+  (forall e ln, In (e, ln) done -> lookup (st_fs st) (d ++ ln :: tr_tail e) = Some (tr_node e)) /\
+  (tc_overwrite c = true -> forall e ln, In (e, ln) done -> ln = tr_key e) /\
+  (tc_overwrite c = false -> forall e ln, In (e, ln) done ->
+     lookup f0 (d ++ [ln]) = None /\ lookup (st_fs st) (d ++ [ln]) <> None) /\
+  (tc_overwrite c = false -> tr_json c = true ->
+     (forall e ln, In (e, ln) done -> map_get (st_map st) (te_id e) = Some ln) /\
+     (forall id v, map_get (st_map st) id = Some v ->
+        lookup (st_fs st) (d ++ [v]) <> None /\ lookup f0 (d ++ [v]) = None) /\
+     (forall id1 id2 v, map_get (st_map st) id1 = Some v -> map_get (st_map st) id2 = Some v -> id1 = id2)).
+
+Lemma path_cons_inj (a : path) x1 t1 x2 t2 : a ++ x1 :: t1 = a ++ x2 :: t2 -> x1 = x2 /\ t1 = t2.
+Proof. intro E. apply app_inv_head in E. inversion E. auto. Qed.
+
+Lemma chain_not_leaf f ln tail a b : chain f d -> d = a ++ b -> a <> d ++ ln :: tail.
+Proof.
+  intros _ Hab E. apply (f_equal (@length name)) in E. rewrite Hab, !app_length in E. cbn in E. lia.
+Qed.
+
+Lemma inv_step st done e ln st' :
+  Inv st done ->
+  (tc_overwrite c = true -> forall e' ln', In (e', ln') done -> tr_key e' :: tr_tail e' <> tr_key e :: tr_tail e) ->
+  (tc_overwrite c = false -> tr_json c = true -> forall e' ln', In (e', ln') done -> te_id e' = te_id e ->
+     tl (te_rel e') <> tl (te_rel e)) ->
+  (tc_overwrite c = false -> tr_json c = true -> (forall e' ln', In (e', ln') done -> te_id e' <> te_id e) ->
+     tl (te_rel e) = []) ->
+  tr_spec_entry c d e st = Some (ln, st') ->
+  Inv st' (done ++ [(e, ln)]).
+Proof.
+  intros (Hc & Hmg & Hmono & Hcont & Hkey & Hfresh & Hmap) Dow Did Dfirst Hs.
+  (* unfold the specification: one creation with the final content *)
+  unfold tr_spec_entry in Hs. destruct (te_isdir e && negb (tr_json c)) eqn:E0; [discriminate|].
+  destruct (tr_create c d (tr_payload c e) [] st) as [[l1|] st1] eqn:E1; [|discriminate].
+  assert (Ha : tr_p_archive (tr_payload c e) = false) by (unfold tr_payload; destruct (tr_json c); reflexivity).
+  assert (Hisdir : tr_p_isdir (tr_payload c e) = te_isdir e).
+  { unfold tr_payload. destruct (tr_json c); cbn [tr_p_isdir s_isdir]; [reflexivity|]. destruct (te_isdir e); [discriminate | reflexivity]. }
+  destruct (tr_create_result _ _ _ _ _ _ _ Ha Hmg E1) as (G1 & M1 & T1 & L1 & P1 & N1 & I1).
+  assert (Hfin : exists x, tr_create c d (tr_payload c e) x st = (NOk ln, st') /\ l1 = ln /\
+            (te_isdir e = false -> x = te_data e /\
+               (tr_json_names c = true -> old_content (st_fs st) (d ++ ln :: tr_tail e) = []))).
+  { destruct (te_isdir e) eqn:Hd.
+    - inversion Hs; subst. exists []. split; [exact E1|]. split; [reflexivity|]. discriminate.
+    - destruct (tr_json_names c && (0 <? tr_target_size d l1 (tr_payload c e) st1)) eqn:E2; [discriminate|].
+      destruct (tr_create c d (tr_payload c e) (te_data e) st) as [[l2|] st2] eqn:E3; [|discriminate].
+      inversion Hs; subst. destruct (I1 (te_data e)) as (st3 & E4). rewrite E3 in E4. inversion E4; subst.
+      exists (te_data e). split; [exact E3|]. split; [reflexivity|]. intros _. split; [reflexivity|].
+      intro Ej. rewrite Ej in E2. cbn [andb] in E2. apply N.ltb_ge in E2. apply N.le_0_r in E2.
+      unfold tr_target_size, tr_leaf in E2. rewrite join_good in E2 by (constructor; assumption).
+      fold (tr_tail e) in E2, L1. rewrite L1, Hisdir, Ej in E2. cbn [write0 app skipn length] in E2.
+      unfold tr_blen in E2. destruct (old_content (st_fs st) (d ++ ln :: tr_tail e)); [reflexivity | discriminate]. }
+  destruct Hfin as (x & Ex & -> & Hx). clear E1 G1 M1 T1 L1 P1 N1 I1 st1 Hs.
+  destruct (tr_create_result _ _ _ _ _ _ _ Ha Hmg Ex) as (G & M & T & L & P & Nc & _).
+  fold (tr_tail e) in L, P, T. rewrite Hisdir in L.
+  set (leaf := d ++ ln :: tr_tail e) in *.
+  (* the node at the leaf *)
+  assert (Hleaf : lookup (st_fs st') leaf = Some (tr_node e)).
+  { rewrite L. unfold tr_node. destruct (te_isdir e); [reflexivity|]. destruct (Hx eq_refl) as (-> & Ho).
+    destruct (tr_json_names c); [rewrite (Ho eq_refl)|]; rewrite write0_nil_l; reflexivity. }
+  (* presence is monotone *)
+  assert (Hpres : forall q, lookup (st_fs st) q <> None -> lookup (st_fs st') q <> None).
+  { intros q Hq. destruct (path_eq_dec q leaf) as [->|Hne]; [rewrite Hleaf; discriminate | rewrite P; assumption]. }
+  (* the new leaf differs from every earlier one *)
+  assert (Hdist : forall e' ln', In (e', ln') done -> d ++ ln' :: tr_tail e' <> leaf).
+  { intros e' ln' Hin Heq. subst leaf. apply path_cons_inj in Heq as [-> Ht].
+    unfold name_choice in Nc. cbn [tr_names_cfg overwrite] in Nc.
+    destruct (tc_overwrite c) eqn:Eo.
+    - destruct Nc as [Hl _]. apply (Dow eq_refl e' ln Hin). rewrite <- (Hkey eq_refl e' ln Hin), Ht. fold (tr_key e) in Hl. congruence.
+    - destruct (tr_json c) eqn:Ej.
+      + rewrite (pid_json e Ej) in Nc. destruct (Hmap eq_refl eq_refl) as (Hm1 & Hm2 & Hm3).
+        destruct (map_get (st_map st) (te_id e)) as [v|] eqn:Em.
+        * destruct Nc as [-> _]. pose proof (Hm1 e' v Hin) as Hm'.
+          assert (Hid : te_id e' = te_id e) by (apply (Hm3 _ _ v); assumption).
+          apply (Did eq_refl eq_refl e' v Hin Hid). rewrite <- !tail_json by assumption. exact Ht.
+        * destruct Nc as [Hs _]. apply (stat_notexist_lookup _ _ _ Hc) in Hs.
+          destruct (Hm2 _ _ (Hm1 e' ln Hin)) as [Hp _]. congruence.
+      + rewrite (pid_plain e Ej) in Nc. destruct Nc as [Hs _]. apply (stat_notexist_lookup _ _ _ Hc) in Hs.
+        destruct (Hfresh eq_refl e' ln Hin) as [_ Hp]. congruence. }
+  unfold Inv. split; [|split; [exact M|split; [intros q Hq; apply Hpres, Hmono, Hq|]]].
+  { intros a b Hab. pose proof (Hc a b Hab) as Hg. unfold get in Hg |- *. destruct a as [|x0 a]; [reflexivity|].
+    rewrite P; [exact Hg | congruence | apply (chain_not_leaf (st_fs st) ln (tr_tail e) _ b Hc Hab)]. }
+  split.
+  { intros e' ln' Hin. apply in_app_or in Hin as [Hin|[Hin|[]]].
+    - rewrite P; [apply Hcont; exact Hin | rewrite (Hcont _ _ Hin); discriminate | apply (Hdist _ _ Hin)].
+    - inversion Hin; subst. exact Hleaf. }
+  unfold name_choice in Nc. cbn [tr_names_cfg overwrite] in Nc.
+  split.
+  { intros Eo e' ln' Hin. apply in_app_or in Hin as [Hin|[Hin|[]]]; [apply (Hkey Eo _ _ Hin)|].
+    inversion Hin; subst. rewrite Eo in Nc. destruct Nc as [-> _]. reflexivity. }
+  (* freshness of the new name with respect to the initial file system, and its presence now *)
+  assert (Hnew : tc_overwrite c = false -> lookup f0 (d ++ [ln]) = None /\ lookup (st_fs st') (d ++ [ln]) <> None).
+  { intro Eo. rewrite Eo in Nc. destruct (tr_json c) eqn:Ej.
+    - rewrite (pid_json e Ej) in Nc. destruct (Hmap Eo eq_refl) as (Hm1 & Hm2 & Hm3).
+      destruct (map_get (st_map st) (te_id e)) as [v|] eqn:Em.
+      + destruct Nc as [-> _]. destruct (Hm2 _ _ Em) as [Hp Hf]. split; [exact Hf | apply Hpres, Hp].
+      + destruct Nc as [Hs _]. apply (stat_notexist_lookup _ _ _ Hc) in Hs. split.
+        * destruct (lookup f0 (d ++ [ln])) eqn:El; [|reflexivity]. exfalso. apply (Hmono (d ++ [ln])); [rewrite El; discriminate | exact Hs].
+        * assert (Hnone : forall e' ln', In (e', ln') done -> te_id e' <> te_id e).
+          { intros e' ln' Hin Hid. rewrite <- Hid, (Hm1 _ _ Hin) in Em. discriminate. }
+          pose proof (Dfirst Eo eq_refl Hnone) as Ht. rewrite <- (tail_json e Ej) in Ht.
+          subst leaf. rewrite Ht in Hleaf. rewrite Hleaf. discriminate.
+    - rewrite (pid_plain e Ej) in Nc. destruct Nc as [Hs _]. apply (stat_notexist_lookup _ _ _ Hc) in Hs. split.
+      + destruct (lookup f0 (d ++ [ln])) eqn:El; [|reflexivity]. exfalso. apply (Hmono (d ++ [ln])); [rewrite El; discriminate | exact Hs].
+      + subst leaf. rewrite (tail_plain e Ej) in Hleaf. rewrite Hleaf. discriminate. }
+  split.
+  { intros Eo e' ln' Hin. apply in_app_or in Hin as [Hin|[Hin|[]]].
+    - destruct (Hfresh Eo _ _ Hin) as [A B]. split; [exact A | apply Hpres, B].
+    - inversion Hin; subst. apply Hnew, Eo. }
+  intros Eo Ej. rewrite Eo, (pid_json e Ej) in Nc. destruct (Hmap Eo Ej) as (Hm1 & Hm2 & Hm3).
+  destruct (map_get (st_map st) (te_id e)) as [v|] eqn:Em.
+  - destruct Nc as [-> Es]. rewrite Es. split; [|split; [|exact Hm3]].
+    + intros e' ln' Hin. apply in_app_or in Hin as [Hin|[Hin|[]]]; [apply (Hm1 _ _ Hin)|]. inversion Hin; subst. exact Em.
+    + intros id v' Hv. destruct (Hm2 _ _ Hv) as [A B]. split; [apply Hpres, A | exact B].
+  - destruct Nc as [Hs Es]. rewrite Es. destruct (Hnew Eo) as [Hn1 Hn2].
+    assert (Hold : forall id v', map_get (st_map st) id = Some v' -> v' <> ln).
+    { intros id v' Hv ->. destruct (Hm2 _ _ Hv) as [A _]. apply (stat_notexist_lookup _ _ _ Hc) in Hs. congruence. }
+    split; [|split].
+    + intros e' ln' Hin. cbn [map_get]. apply in_app_or in Hin as [Hin|[Hin|[]]].
+      * destruct (Z.eqb (te_id e) (te_id e')) eqn:Ez; [|apply (Hm1 _ _ Hin)].
+        apply Z.eqb_eq in Ez. rewrite Ez, (Hm1 _ _ Hin) in Em. discriminate.
+      * inversion Hin; subst. rewrite Z.eqb_refl. reflexivity.
+    + intros id v'. cbn [map_get]. destruct (Z.eqb (te_id e) id).
+      * intro Hv; inversion Hv; subst. split; assumption.
+      * intro Hv. destruct (Hm2 _ _ Hv) as [A B]. split; [apply Hpres, A | exact B].
+    + intros id1 id2 v'. cbn [map_get]. destruct (Z.eqb (te_id e) id1) eqn:Z1; destruct (Z.eqb (te_id e) id2) eqn:Z2.
+      * apply Z.eqb_eq in Z1, Z2. congruence.
+      * intros Hv1 Hv2. inversion Hv1; subst. exfalso. apply (Hold _ _ Hv2). reflexivity.
+      * intros Hv1 Hv2. inversion Hv2; subst. exfalso. apply (Hold _ _ Hv1). reflexivity.
+      * apply Hm3.
+Qed.
+
+Lemma nodup_mid {A B} (f : A -> B) pre e post : NoDup (map f (pre ++ e :: post)) -> forall a, In a pre -> f a <> f e.
+Proof.
+  rewrite map_app. cbn [map]. intros Hn a Ha Heq. apply NoDup_remove_2 in Hn. apply Hn.
+  apply in_or_app. left. rewrite <- Heq. apply in_map. exact Ha.
+Qed.
+
+Lemma spec_inv : forall es done st names per all stf,
+  Inv st done -> tr_wf (map fst done ++ es) ->
+  tr_spec c d es st names = Some (per, all, stf) ->
+  Inv stf (done ++ combine es per) /\ length per = length es /\ all = fold_left tr_add_name per names.
+Proof.
+  induction es as [|e es IH]; intros done st names per all stf HI Hwf Hs.
+  - cbn in Hs. inversion Hs; subst. cbn. rewrite app_nil_r. auto.
+  - cbn [tr_spec] in Hs. destruct (tr_spec_entry c d e st) as [[ln st1]|] eqn:Ee; [|discriminate].
+    destruct (tr_spec c d es st1 (tr_add_name names ln)) as [[[per' all'] stf']|] eqn:Er; [|discriminate].
+    inversion Hs; subst.
+    assert (HI1 : Inv st1 (done ++ [(e, ln)])).
+    { apply (inv_step st done e ln st1 HI); [| | | exact Ee].
+      - intros Eo e' ln' Hin. destruct Hwf as [_ Hw]. specialize (Hw Eo).
+        apply (nodup_mid _ _ _ _ Hw e'). apply in_map_iff. exists (e', ln'). auto.
+      - intros Eo Ej e' ln' Hin Hid Ht. destruct Hwf as [Hw _]. destruct (Hw Eo Ej) as [Hn _].
+        apply (nodup_mid _ _ _ _ Hn e'); [apply in_map_iff; exists (e', ln'); auto | congruence].
+      - intros Eo Ej Hnone. destruct Hwf as [Hw _]. destruct (Hw Eo Ej) as [_ Hf].
+        destruct (tl (te_rel e)) eqn:Et; [reflexivity|]. exfalso.
+        destruct (Hf (map fst done) e es eq_refl) as (e' & Hin & Hid); [rewrite Et; discriminate|].
+        apply in_map_iff in Hin as ([e'' ln''] & <- & Hin). apply (Hnone _ _ Hin Hid). }
+    assert (Hwf1 : tr_wf (map fst (done ++ [(e, ln)]) ++ es)).
+    { rewrite map_app, <- app_assoc. exact Hwf. }
+    destruct (IH _ _ _ _ _ _ HI1 Hwf1 Er) as (A & B & C).
+    rewrite <- app_assoc in A. cbn [combine length fold_left]. split; [exact A|]. split; [congruence | exact C].
+Qed.
+
+Lemma inv_init : stat f0 d = SFound Dir -> Inv (init_state f0) [].
+Proof.
+  intro Hd. unfold Inv. cbn [init_state st_fs st_map].
+  split; [apply stat_dir_chain, Hd|]. split; [intros id v Hv; discriminate Hv|]. split; [auto|].
+  split; [intros ? ? Hf; destruct Hf|]. split; [intros _ ? ? Hf; destruct Hf|]. split; [intros _ ? ? Hf; destruct Hf|].
+  intros _ _. split; [intros ? ? Hf; destruct Hf|]. split; intros; discriminate.
+Qed.
+
+Theorem spec_tree es per all stf : stat f0 d = SFound Dir -> tr_wf es ->
+  tr_spec c d es (init_state f0) [] = Some (per, all, stf) ->
+  length per = length es /\ all = fold_left tr_add_name per [] /\
+  (forall e ln, In (e, ln) (combine es per) -> lookup (st_fs stf) (d ++ ln :: tr_tail e) = Some (tr_node e)) /\
+  (tc_overwrite c = true -> forall e ln, In (e, ln) (combine es per) -> ln = tr_key e) /\
+  (tc_overwrite c = false -> forall e ln, In (e, ln) (combine es per) ->
+     lookup f0 (d ++ [ln]) = None /\ lookup (st_fs stf) (d ++ [ln]) <> None) /\
+  (forall q, lookup f0 q <> None -> lookup (st_fs stf) q <> None).
+Proof.
+  intros Hd Hwf Hs. destruct (spec_inv es [] _ _ _ _ _ (inv_init Hd) Hwf Hs) as ((_ & _ & Hmono & Hcont & Hkey & Hfresh & _) & Hl & Ha).
+  cbn [app] in *. auto 10.
+Qed.
+
+(* the deduplicated list names exactly the per-entry names *)
+Lemma in_add_name names n x : In x (tr_add_name names n) <-> In x names \/ x = n.
+Proof.
+  unfold tr_add_name. destruct (existsb (list_eqb n) names) eqn:E.
+  - split; [auto|]. intros [Hx | ->]; [exact Hx|]. apply existsb_exists in E as (y & Hy & Ey).
+    apply list_eqb_eq in Ey. subst. exact Hy.
+  - rewrite in_app_iff. cbn. intuition.
+Qed.
+
+Lemma in_fold_add per : forall names x, In x (fold_left tr_add_name per names) <-> In x names \/ In x per.
+Proof.
+  induction per as [|n per IH]; intros names x; cbn [fold_left]; [cbn; tauto|].
+  rewrite IH, in_add_name. cbn. intuition.
+Qed.
+
+Lemma nodup_snoc {A} (l : list A) (x : A) : NoDup l -> ~ In x l -> NoDup (l ++ [x]).
+Proof.
+  induction l as [|a l IH]; intros Hn Hx; cbn [app]; [constructor; [intros Hf; destruct Hf | constructor]|].
+  inversion Hn; subst. constructor.
+  - intro Hin. apply in_app_or in Hin as [Hin|[->|Hf]]; [contradiction | apply Hx; left; reflexivity | destruct Hf].
+  - apply IH; [assumption | intro Hin; apply Hx; right; exact Hin].
+Qed.
+
+Lemma nodup_add_name names n : NoDup names -> NoDup (tr_add_name names n).
+Proof.
+  intro Hn. unfold tr_add_name. destruct (existsb (list_eqb n) names) eqn:E; [exact Hn|].
+  apply nodup_snoc; [exact Hn|]. intro Hin.
+  assert (existsb (list_eqb n) names = true); [|congruence].
+  apply existsb_exists. exists n. split; [exact Hin | apply list_eqb_refl].
+Qed.
+
+End Tree.
